@@ -634,6 +634,36 @@ func c19PreParams(r *vc.Run, g rng) {
 			base = n
 		}
 	}
+	// the deadline falls BETWEEN the two generators: an entropy source that answers every 128-byte draw with one fixed Sophie
+	// Germain prime lets the two safe primes of NTilde be found at once, while the Paillier generator (which insists on two
+	// different primes far apart) keeps retrying until the deadline. The call must then report the failure; what it must never
+	// do is return without an error and without a Paillier key.
+	{
+		fx, _ := fixtures()
+		sg := fx[0].LocalPreParams.P.Bytes()
+		for _, conc := range []int{3, 12} {
+			ctx, cancel := context.WithTimeout(context.Background(), 2*time.Second)
+			t0 := time.Now()
+			pp, err := ecdsakeygen.GeneratePreParamsWithContextAndRandom(ctx, &fixedPrimeReader{prime: sg, rest: newDetRand(fmt.Sprintf("c19-between-%d", conc))}, conc)
+			cancel()
+			replay := fmt.Sprintf("GeneratePreParamsWithContextAndRandom(2 s deadline, workers=%d) with an entropy source that answers every 128-byte draw with the same Sophie Germain prime (safe primes found at once, Paillier primes never)", conc)
+			r.Dist["preparams/deadline-between-generators"]++
+			r.CountCase(replay, true, replay)
+			if err == nil && (pp == nil || pp.PaillierSK == nil || pp.NTildei == nil || pp.H1i == nil || pp.H2i == nil) {
+				r.Violate("preparams-incomplete-without-error", "pre-parameter generation returned no error although the Paillier key was not generated before the deadline (incomplete pre-parameters)", replay)
+			}
+			if err != nil && pp != nil {
+				r.Violate("preparams-cancel-result", "an error is returned together with pre-parameters", replay)
+			}
+			if time.Since(t0) > 15*time.Second {
+				r.Violate("preparams-cancel-slow", fmt.Sprintf("the call returned %v after its deadline", time.Since(t0)-2*time.Second), replay)
+			}
+			if n := settleGoroutines(base); n > base {
+				r.Violate("preparams-goroutine-leak", fmt.Sprintf("%d goroutine(s) left behind after a generation that missed its deadline", n-base), replay)
+				base = n
+			}
+		}
+	}
 	// cancelled pre-parameter generation: an error, promptly, nothing left running
 	for _, at := range []time.Duration{0, 3 * time.Millisecond, 50 * time.Millisecond} {
 		ctx, cancel := context.WithTimeout(context.Background(), at)
@@ -657,4 +687,18 @@ func c19PreParams(r *vc.Run, g rng) {
 			base = n
 		}
 	}
+}
+
+// fixedPrimeReader answers every read of exactly len(prime) bytes with prime, every other read from rest.
+type fixedPrimeReader struct {
+	prime []byte
+	rest  io.Reader
+}
+
+func (f *fixedPrimeReader) Read(p []byte) (int, error) {
+	if len(p) == len(f.prime) {
+		copy(p, f.prime)
+		return len(p), nil
+	}
+	return f.rest.Read(p)
 }
